@@ -201,7 +201,8 @@ class Gen2:
                 self.facts["while"] += 1
                 v = "$x" if rng.random() < 0.7 else "$c%d" % self.uniq()
                 pre = [] if v == "$x" else [p + "%s = 0" % v]
-                out = pre + [p + "while %s < %d" % (v, rng.randint(1, 3)), p + "  %s = %s + 1" % (v, v), p + "  match Tick()"]
+                cond = "True" if rng.random() < 0.3 else "%s < %d" % (v, rng.randint(1, 3))  # `while True`: exits only through break
+                out = pre + [p + "while %s" % cond, p + "  %s = %s + 1" % (v, v), p + "  match Tick()"]
                 return out + self.block(depth - 1, ind + 1, True)
             self.facts["when"] += 1
             spec, g = self.when_spec()
@@ -213,7 +214,7 @@ class Gen2:
                 out += [p + "or when " + spec] + self.block(depth - 1, ind + 1, inloop)
             if multi:
                 self.facts["when_multi"] += 1
-            if rng.random() < 0.1:
+            if rng.random() < 0.35:
                 self.facts["when_else"] += 1
                 out += [p + "else"] + self.block(depth - 1, ind + 1, inloop, no_leading_if=True)
             return out
